@@ -23,11 +23,12 @@
 #include "event.h"
 #include "values.h"
 #include "stream.h"
+#include "history.h"
 #include "connection.h"
 #include <sys/socket.h>
 #include <sys/uio.h>
 
-enum { KBuf = 1, KHmeta, KReply, KRawdata, KGeninfo, KMetabuf, KCxxref, KBare, KStream };
+enum { KBuf = 1, KHmeta, KReply, KRawdata, KGeninfo, KMetabuf, KCxxref, KBare, KStream, KOutLocal, KOutRemote, KIterFile };
 
 #define MAXH 6
 #define MAXO 8
@@ -211,6 +212,9 @@ static void *obj_create(void)
 	case KReply:   return mpt_reply_deferrable(8, send_cb, &sends);
 	case KRawdata: return rawdata_filled();
 	case KStream:  return stream_input();
+	case KOutLocal:  return mpt_output_local();
+	case KOutRemote: return mpt_output_remote();
+	case KIterFile:  return mpt_iterator_filename("/dev/null");
 	case KGeninfo: return mpt_meta_geninfo(8);
 	case KMetabuf: return mpt_meta_buffer(inner._buf ? &inner : 0);
 	case KCxxref:  return cxx_thing_create();
@@ -219,7 +223,8 @@ static void *obj_create(void)
 }
 static int is_meta(void)
 {
-	return kind == KHmeta || kind == KReply || kind == KRawdata || kind == KGeninfo || kind == KMetabuf || kind == KStream;
+	return kind == KHmeta || kind == KReply || kind == KRawdata || kind == KGeninfo || kind == KMetabuf || kind == KStream
+	    || kind == KOutLocal || kind == KOutRemote || kind == KIterFile;
 }
 
 static void drv_reset(void)
@@ -284,9 +289,9 @@ static void emit(struct cmd *c, const char *ret, long long val, const int *was)
 		}
 		j_int("quiet", q);
 	}
+	j_int("badfree", vf_badfree);
 	drv_dbg();
 	j_int("blocks", vf_live());
-	j_int("badfree", vf_badfree);
 	j_int("sends", sends);
 	j_int("inner", inner._buf ? (vf_containing(inner._buf) ? 1 : 0) : -1);
 	drv_end();
@@ -294,9 +299,9 @@ static void emit(struct cmd *c, const char *ret, long long val, const int *was)
 
 static int kind_of(const char *s)
 {
-	static const char *names[] = { "", "buf", "hmeta", "reply", "rawdata", "geninfo", "metabuf", "cxxref", "bare", "stream" };
+	static const char *names[] = { "", "buf", "hmeta", "reply", "rawdata", "geninfo", "metabuf", "cxxref", "bare", "stream", "outlocal", "outremote", "iterfile" };
 	int i;
-	for (i = 1; i <= KStream; i++) if (s && !strcmp(s, names[i])) return i;
+	for (i = 1; i <= KIterFile; i++) if (s && !strcmp(s, names[i])) return i;
 	return 0;
 }
 static const MPT_STRUCT(type_traits) *ref_traits(void)
@@ -381,6 +386,12 @@ static void drv_step(struct cmd *c)
 			MPT_TYPE(data_converter) conv = mpt_data_converter(MPT_ENUM(TypeMetaRef));
 			rc = conv ? conv(&slot[g - 1], MPT_ENUM(TypeMetaRef), &slot[h - 1]) : -1;
 		}
+		else if (!strcmp(via, "value") || !strcmp(via, "valueptr")) {
+			/* generic value assignment: source typed as metatype reference or metatype pointer */
+			MPT_STRUCT(value) v;
+			MPT_value_set(&v, via[5] ? MPT_ENUM(TypeMetaPtr) : MPT_ENUM(TypeMetaRef), &slot[g - 1]);
+			rc = mpt_value_convert(&v, MPT_ENUM(TypeMetaRef), &slot[h - 1]);
+		}
 		else if (!strcmp(via, "traits")) {
 			void *tmp = 0;        /* raw storage: only taken over when the copy was made */
 			rc = ref_traits()->init(&tmp, &slot[g - 1]);
@@ -399,6 +410,12 @@ static void drv_step(struct cmd *c)
 			MPT_TYPE(data_converter) conv = mpt_data_converter(MPT_ENUM(TypeMetaRef));
 			void *none = 0;
 			rc = conv ? conv(&none, MPT_ENUM(TypeMetaRef), &slot[h - 1]) : -1;
+		}
+		else if (!strcmp(via, "value")) {
+			MPT_STRUCT(value) v;
+			void *none = 0;
+			MPT_value_set(&v, MPT_ENUM(TypeMetaRef), &none);
+			rc = mpt_value_convert(&v, MPT_ENUM(TypeMetaRef), &slot[h - 1]);
 		}
 		else if (!strcmp(via, "fini")) {
 			ref_traits()->fini(&slot[h - 1]);
